@@ -153,3 +153,26 @@ pub fn iso_date_time_as_nanoseconds(
 pub fn iso_date_time_from_epoch_nanos(ns: i128, offset: i64) -> TemporalResult<IsoDateTime> {
     IsoDateTime::from_epoch_nanos(&EpochNanoseconds::try_from(ns)?, offset)
 }
+
+// ==== calendar field resolution (crate-private fields of `ResolvedCalendarFields`) ====
+
+use crate::builtins::core::calendar::ResolutionType;
+use crate::builtins::core::calendar::ResolvedCalendarFields;
+use crate::builtins::core::PartialDate;
+use crate::options::ArithmeticOverflow;
+use alloc::string::{String, ToString};
+
+/// `ResolvedCalendarFields::try_from_partial(partial, overflow, Date)` → (era code, year, month code, day):
+/// the arguments `Calendar::date_from_partial` hands to the calendrical library.
+pub fn resolve_calendar_fields(
+    partial: &PartialDate,
+    overflow: ArithmeticOverflow,
+) -> TemporalResult<(Option<String>, i32, String, u8)> {
+    let r = ResolvedCalendarFields::try_from_partial(partial, overflow, ResolutionType::Date)?;
+    Ok((
+        r.era_year.era.map(|e| e.0.as_str().to_string()),
+        r.era_year.year,
+        r.month_code.as_str().to_string(),
+        r.day,
+    ))
+}
